@@ -1,6 +1,547 @@
+// C14 — hostile input produces errors, never panics or hangs.
+//
+// Monitor: every library entry point that takes bytes from outside is run on
+// hostile inputs; an execution is refuted by a panic (recover), a fatal error
+// or any other death of the process running it (child exit status + journal),
+// a call that does not return (watchdog, confirmed alone with ten times the
+// bound), scrypt work above the configured maximum (allocation meter, and
+// refusal by construction), an armor failure that is not *armor.Error, a
+// header failure that leaves a header or reader behind, or an accepted input
+// that breaks a cheap canonical invariant.
+//
+// quick: the seed corpus (114 CCTV vectors, frozen corpus, keys of every kind,
+// reference-built hostile headers) and 20 000 seed-derived mutations per
+// target, in child batches under RLIMIT_AS. thorough: additionally native
+// coverage-guided fuzzing (`go test -fuzz`, fixed execution counts) of the
+// FuzzXxx targets in fuzz_test.go, and a replay of the corpus the fuzzer
+// accumulated in a -race build of this monitor.
 package main
-import ("fmt";"filippo.io/age/zverif/refage";"sort")
-func main(){ vs,_:=refage.Vectors(); ids:=map[string]int{}; ps:=map[string]int{}; ex:=map[string]int{}; big:=0
-for _,v:=range vs{ for _,i:=range v.Identities{ids[i]++}; for _,p:=range v.Passphrases{ps[p]++}; ex[v.Expect]++; if len(v.File)>big{big=len(v.File)}}
-fmt.Println(len(vs),ids,ps,ex,big)
-var n []string; for _,v:=range vs{ n=append(n, fmt.Sprintf("%s:%d",v.Name,len(v.File)))}; sort.Strings(n); fmt.Println(n)}
+
+import (
+	"encoding/base64"
+	"encoding/json"
+	"flag"
+	"fmt"
+	"os"
+	"sort"
+	"strconv"
+	"strings"
+	"sync"
+	"time"
+
+	"filippo.io/age/zverif/mon"
+	"filippo.io/age/zverif/refage"
+)
+
+type witness struct {
+	key, what string
+	rep       map[string]any
+	size      int
+	count     int64
+}
+
+type targetStats struct {
+	QuickEvals     int64            `json:"quick_evaluations"`
+	Classes        map[string]int64 `json:"outcome_classes"`
+	Skipped        map[string]int64 `json:"skipped,omitempty"`
+	ScryptMetered  int64            `json:"scrypt_unwraps_metered,omitempty"`
+	SlowestUS      int64            `json:"slowest_input_us"`
+	SlowestInput   string           `json:"slowest_input"`
+	MaxInputLen    int              `json:"max_input_len"`
+	FuzzExecs      int64            `json:"fuzz_execs,omitempty"`
+	FuzzNew        int64            `json:"fuzz_new_interesting,omitempty"`
+	FuzzCorpus     int64            `json:"fuzz_corpus_total,omitempty"`
+	FuzzCrashers   int              `json:"fuzz_crashers"`
+	RaceReplayed   int64            `json:"race_replayed,omitempty"`
+	ChildrenDied   int              `json:"children_died"`
+	SlowRetried    int              `json:"slow_calls_retried"`
+	VmLimitKB      uint64           `json:"child_address_space_limit_kb,omitempty"`
+	slowestJobKind string
+}
+
+type parent struct {
+	r       *mon.Run
+	exe     string
+	mu      sync.Mutex
+	best    map[string]*witness
+	stats   map[string]*targetStats
+	bound   time.Duration
+	limitOK bool
+
+	// hang confirmation is serialised per target; once a target has a
+	// confirmed hang, further stalls of it are counted, not re-confirmed
+	hangMu map[string]*sync.Mutex
+	hung   map[string]string // target -> violation key
+	deaths map[string]int    // target, death key -> children lost
+}
+
+const maxSameDeaths = 6
+
+func (p *parent) hangLock(name string) *sync.Mutex {
+	p.mu.Lock()
+	defer p.mu.Unlock()
+	if p.hangMu == nil {
+		p.hangMu = map[string]*sync.Mutex{}
+		p.hung = map[string]string{}
+	}
+	m := p.hangMu[name]
+	if m == nil {
+		m = &sync.Mutex{}
+		p.hangMu[name] = m
+	}
+	return m
+}
+
+func (p *parent) st(name string) *targetStats {
+	s := p.stats[name]
+	if s == nil {
+		s = &targetStats{Classes: map[string]int64{}, Skipped: map[string]int64{}}
+		p.stats[name] = s
+	}
+	return s
+}
+
+// add records a violation witness; the smallest input per key is reported.
+func (p *parent) add(key, what string, input []byte, rep map[string]any) {
+	p.mu.Lock()
+	defer p.mu.Unlock()
+	w := p.best[key]
+	if w != nil {
+		w.count++
+		if len(input) >= w.size {
+			return
+		}
+	} else {
+		w = &witness{key: key, count: 1}
+		p.best[key] = w
+	}
+	if rep == nil {
+		rep = map[string]any{}
+	}
+	rep["input_base64"] = base64.StdEncoding.EncodeToString(input)
+	rep["input_quoted"] = fmt.Sprintf("%.600q", input)
+	rep["input_len"] = len(input)
+	w.what, w.rep, w.size = what, rep, len(input)
+}
+
+func (p *parent) flush() {
+	keys := make([]string, 0, len(p.best))
+	for k := range p.best {
+		keys = append(keys, k)
+	}
+	sort.Strings(keys)
+	for i, k := range keys {
+		w := p.best[k]
+		p.r.Count("violating_inputs", w.count)
+		if i >= 40 {
+			p.r.Count("violation_keys_not_reported", 1)
+			continue
+		}
+		w.rep["inputs_with_this_key"] = w.count
+		p.r.Violate(k, fmt.Sprintf("%s [smallest of %d inputs: %.200q]", w.what, w.count, mustB64(w.rep["input_base64"])), w.rep)
+	}
+}
+
+func mustB64(v any) []byte {
+	s, _ := v.(string)
+	b, _ := base64.StdEncoding.DecodeString(s)
+	return b
+}
+
+// merge folds what a child reported into the run.
+func (p *parent) merge(t *target, j job, e *childEnd, countEvals bool) {
+	for _, rec := range e.recs {
+		if v := rec.Viol; v != nil {
+			in, _ := base64.StdEncoding.DecodeString(v.Input)
+			rep := map[string]any{"target": v.Target, "job_kind": j.Kind, "index": v.Index, "kind": v.Kind,
+				"replay_with": "Fuzz" + v.Target + " / target" + v.Target + "(input)"}
+			if v.Stack != "" {
+				rep["stack"] = v.Stack
+			}
+			p.add(v.Key, v.What, in, rep)
+		}
+	}
+	s := e.sum()
+	if s == nil {
+		return
+	}
+	if hs, err := base64.StdEncoding.DecodeString(s.Hashes); err == nil && countEvals {
+		for i := 0; i+8 <= len(hs); i += 8 {
+			p.r.Distinct(string(hs[i : i+8]))
+		}
+	}
+	if countEvals {
+		p.r.Eval(int(s.Evals))
+	}
+	if s.SampleIn != "" && j.Kind != "seeds" {
+		p.r.SampleN("input:"+t.name, 1, map[string]any{"target": t.name, "input": fmt.Sprintf("%s #%d", j.Kind, s.SampleIdx), "bytes_quoted": s.SampleIn, "outcome": s.SampleClass})
+	}
+	p.mu.Lock()
+	defer p.mu.Unlock()
+	ts := p.st(t.name)
+	if countEvals {
+		ts.QuickEvals += s.Evals
+	}
+	for k, n := range s.Classes {
+		ts.Classes[k] += n
+	}
+	for k, n := range s.Skipped {
+		ts.Skipped[k] += n
+	}
+	for k, n := range s.Repeats {
+		if w := p.best[k]; w != nil {
+			w.count += n
+		}
+	}
+	ts.ScryptMetered += s.ScryptCalls
+	if s.SlowestUS > ts.SlowestUS {
+		ts.SlowestUS = s.SlowestUS
+		ts.SlowestInput = fmt.Sprintf("%s #%d", j.Kind, s.SlowestIdx)
+	}
+	if s.MaxLen > ts.MaxInputLen {
+		ts.MaxInputLen = s.MaxLen
+	}
+	if s.VmLimitKB > 0 {
+		ts.VmLimitKB = s.VmLimitKB
+	}
+	if s.LimitErr == "" && s.VmLimitKB > 0 {
+		p.limitOK = true
+	}
+}
+
+// runRange drives one range of inputs through children until it is done,
+// restarting after the input that killed or stalled a child.
+func (p *parent) runRange(exe string, t *target, j job, env []string, countEvals bool) {
+	j.Target, j.Seed = t.name, p.r.Seed
+	if j.BoundMS == 0 {
+		j.BoundMS = int(p.bound / time.Millisecond)
+	}
+	cur := j.From
+	for restarts := 0; cur < j.To; restarts++ {
+		if restarts > 40 {
+			p.r.Inconclusive("target %s %s[%d,%d): more than 40 child restarts, giving up at %d", t.name, j.Kind, j.From, j.To, cur)
+			return
+		}
+		jj := j
+		jj.From = cur
+		e := spawn(exe, jj, env, 30*time.Minute)
+		if e.startErr != nil {
+			p.r.Inconclusive("cannot start child: %v", e.startErr)
+			return
+		}
+		p.merge(t, jj, e, countEvals)
+		for k, rep := range raceReports(e.stderr) {
+			p.add("race:"+k, "data race reported while replaying inputs of target "+t.name, nil, map[string]any{"target": t.name, "report": rep})
+		}
+		if e.wdKilled {
+			p.r.Inconclusive("target %s %s[%d,%d): child exceeded the 30 min backstop", t.name, j.Kind, cur, j.To)
+			return
+		}
+		if e.exitCode == 0 && e.sum() != nil {
+			return
+		}
+		fl := e.fl
+		if h := e.hang(); h != nil && e.exitCode == exitHang {
+			// a call exceeded the bound: confirm alone with ten times the bound
+			var in []byte
+			for _, f := range fl {
+				if f.index == h.Index {
+					in = f.input
+				}
+			}
+			if countEvals {
+				p.r.Eval(h.Index - cur + 1)
+			}
+			hl := p.hangLock(t.name)
+			hl.Lock()
+			p.mu.Lock()
+			prev, already := p.hung[t.name]
+			if already {
+				if w := p.best[prev]; w != nil {
+					w.count++
+				}
+			}
+			p.mu.Unlock()
+			if already {
+				hl.Unlock()
+				p.r.Count("inputs_not_run_after_confirmed_hang", int64(j.To-h.Index-1))
+				return
+			}
+			alone := jj
+			alone.From, alone.To, alone.Par, alone.BoundMS = h.Index, h.Index+1, 1, 10*j.BoundMS
+			e2 := spawn(exe, alone, env, 30*time.Minute)
+			p.merge(t, alone, e2, false)
+			confirmed := false
+			if h2 := e2.hang(); h2 != nil || e2.wdKilled {
+				where := h.Func
+				if h2 != nil && h2.Func != "" {
+					where = h2.Func
+				}
+				if where == "" {
+					where = fmt.Sprintf("%s:input-%x", t.name, shortHash(in))
+				}
+				key := "hang:" + where
+				p.add(key,
+					fmt.Sprintf("target %s did not return within %v, nor within %v when re-run alone (innermost frame of the module: %s)", t.name, time.Duration(j.BoundMS)*time.Millisecond, time.Duration(alone.BoundMS)*time.Millisecond, where),
+					in, map[string]any{"target": t.name, "job_kind": j.Kind, "index": h.Index, "kind": "hang", "stacks": h.Stacks})
+				p.mu.Lock()
+				p.hung[t.name] = key
+				p.mu.Unlock()
+				confirmed = true
+			} else if e2.exitCode != 0 || e2.sum() == nil {
+				cls, where := deathClass(e2)
+				p.add("child-death:"+where+":"+cls, fmt.Sprintf("the process running target %s died (%s) on this input", t.name, cls), in,
+					map[string]any{"target": t.name, "job_kind": j.Kind, "index": h.Index, "kind": "death", "stderr": trimStack(e2.stderr)})
+			} else {
+				p.mu.Lock()
+				p.st(t.name).SlowRetried++
+				p.mu.Unlock()
+			}
+			hl.Unlock()
+			if confirmed {
+				p.r.Count("inputs_not_run_after_confirmed_hang", int64(j.To-h.Index-1))
+				return
+			}
+			cur = h.Index + 1
+			continue
+		}
+		// the child died: the journal names the input it was running
+		cls, where := deathClass(e)
+		p.mu.Lock()
+		p.st(t.name).ChildrenDied++
+		p.mu.Unlock()
+		if len(fl) == 0 {
+			p.r.Inconclusive("target %s %s[%d,%d): child died (%s) before journalling any input; stderr: %.300s", t.name, j.Kind, cur, j.To, cls, e.stderr)
+			return
+		}
+		last := cur
+		culprit := fl[0]
+		if len(fl) > 1 {
+			// concurrent replay: find the one that dies alone
+			found := false
+			for _, f := range fl {
+				alone := jj
+				alone.From, alone.To, alone.Par = f.index, f.index+1, 1
+				e2 := spawn(exe, alone, env, 30*time.Minute)
+				if e2.exitCode != 0 || e2.sum() == nil {
+					culprit, found = f, true
+					cls, where = deathClass(e2)
+					break
+				}
+			}
+			if !found {
+				cls += " (only under concurrent replay)"
+			}
+		}
+		for _, f := range fl {
+			if f.index > last {
+				last = f.index
+			}
+		}
+		dkey := "child-death:" + where + ":" + cls
+		p.add(dkey,
+			fmt.Sprintf("the process running target %s died (%s; exit %d %s) on this input", t.name, cls, e.exitCode, e.signal), culprit.input,
+			map[string]any{"target": t.name, "job_kind": j.Kind, "index": culprit.index, "kind": "death", "stderr": trimStack(e.stderr)})
+		if countEvals {
+			p.r.Eval(last - cur + 1)
+		}
+		cur = last + 1
+		// a target that keeps dying the same death is established as broken:
+		// stop feeding it (the inputs not run are counted)
+		p.mu.Lock()
+		if p.deaths == nil {
+			p.deaths = map[string]int{}
+		}
+		p.deaths[t.name+"\x00"+dkey]++
+		n := p.deaths[t.name+"\x00"+dkey]
+		p.mu.Unlock()
+		if n > maxSameDeaths {
+			p.r.Count("inputs_not_run_after_repeated_deaths", int64(j.To-cur))
+			return
+		}
+	}
+}
+
+func shortHash(b []byte) []byte {
+	h := mon.DetBytes(string(b), 6)
+	return h
+}
+
+func main() {
+	if spec := os.Getenv(jobEnv); spec != "" {
+		childMain(spec)
+		return
+	}
+	r := mon.Start("C14", "exploration")
+	r.Rule = "case = (target, input bytes): one call of a library entry point on a hostile input, decided by recover(), the exit status of the " +
+		"process running it, a watchdog (confirmed alone at 10x), an allocation meter around ScryptIdentity.Unwrap and the target's own checks " +
+		"(armor error type, nothing returned with an error, cheap canonical invariants on accepted input); every executed input is non-trivial " +
+		"(a seed or a mutation of one); distinct by sha256(target || input). Coverage-guided executions of the thorough tier are counted in " +
+		"evaluations but, being held by the go tool, not in distinct."
+	r.Assumptions = []string{
+		"inputs up to 600 KiB; files up to 3 chunks",
+		"passphrase identities configured with SetMaxWorkFactor(10); scrypt work is metered as bytes allocated by Unwrap (1 KiB * 2^w)",
+		fmt.Sprintf("encrypted OpenSSH key files demanding more than %d bcrypt_pbkdf rounds are constructed but not unlocked: that KDF and its cost parameter belong to golang.org/x/crypto/ssh and to the owner of the key file (counted under skipped)", maxBcryptRounds),
+		"private-key operations with a parsed hostile RSA identity are exercised for moduli up to 4096 bits",
+		"the plugin client fed arbitrary bytes by a plugin process is C16's workload and is not repeated here",
+		"hang = a call that exceeds 10 s and, re-run alone, 100 s (wall clock is used only by this watchdog)",
+		"the armor canonical-form check is blind to white space and the Bech32 ones to Unicode case folding: line structure and U+212A are decided by C08 and C09",
+	}
+	replayPath := ""
+	if f := flag.Lookup("replay"); f != nil {
+		replayPath = f.Value.String()
+	}
+
+	if _, err := refage.SelfCheck(); err != nil {
+		fmt.Fprintf(os.Stderr, "refage self-check failed (seed builder unusable): %v\n", err)
+		os.Exit(2)
+	}
+	exe, err := os.Executable()
+	if err != nil {
+		exe = os.Args[0]
+	}
+	p := &parent{r: r, exe: exe, best: map[string]*witness{}, stats: map[string]*targetStats{}, bound: defaultBound}
+
+	if replayPath != "" {
+		p.replay(replayPath)
+		p.flush()
+		r.MinEvals, r.MinDistinct = 1, 1
+		r.Finish()
+	}
+
+	// valid keys and the seed corpus are built with the library's own parsers:
+	// a panic here is a panic on well-formed input
+	r.Guard("fixtures: parsing the fixed valid keys", func() { fix(); loadSeeds() })
+	if seedC == nil {
+		r.Finish()
+	}
+	c := loadSeeds()
+	fmt.Printf("   seeds: %s\n", c.describe())
+	if c.nCorpus == 0 {
+		r.Inconclusive("frozen corpus not found under %s/corpus", verifRoot())
+	}
+	if c.nVector < 100 {
+		r.Inconclusive("only %d CCTV vectors", c.nVector)
+	}
+	r.Set("seed_corpus", map[string]any{"cctv_vectors": c.nVector, "frozen_corpus_files": c.nCorpus, "reference_built_files": c.nBuilt,
+		"key_strings_and_files": c.nKeys, "distinct_seeds": len(c.all)})
+
+	// ---- quick tier: seeds + deterministic mutations, in child batches ----
+	type unit struct {
+		t *target
+		j job
+	}
+	var units []unit
+	const batch = 2500
+	mult := 1.0
+	if r.Thorough() {
+		mult = 3
+	}
+	if s := os.Getenv("VERIF_C14_QUICKSCALE"); s != "" { // for trying the pipeline out; a scaled-down run ends inconclusive
+		if f, err := strconv.ParseFloat(s, 64); err == nil && f > 0 && f < 1 {
+			mult *= f
+			r.Inconclusive("VERIF_C14_QUICKSCALE=%s: the deterministic tier was scaled down", s)
+		}
+	}
+	quickN := func(t *target) int { return int(float64(t.quickN) * mult) }
+	for _, t := range targets {
+		units = append(units, unit{t, job{Kind: "seeds", From: 0, To: len(c.all)}})
+	}
+	for off := 0; ; off += batch {
+		any := false
+		for _, t := range targets {
+			n := quickN(t)
+			if off < n {
+				any = true
+				units = append(units, unit{t, job{Kind: "mut", From: off, To: min(off+batch, n)}})
+			}
+		}
+		if !any {
+			break
+		}
+	}
+	mon.Par(len(units), func(i int) {
+		p.runRange(exe, units[i].t, units[i].j, nil, true)
+	})
+	r.Count("quick_inputs", r.Evals())
+	if !p.limitOK {
+		r.Inconclusive("no child ran under RLIMIT_AS")
+	}
+
+	// ---- thorough tier: native fuzzing, then the accumulated corpus under -race ----
+	if r.Thorough() {
+		p.thorough()
+	}
+
+	p.flush()
+	r.Set("targets", p.stats)
+	died, slow := 0, 0
+	for _, s := range p.stats {
+		died += s.ChildrenDied
+		slow += s.SlowRetried
+	}
+	r.Count("children_died", int64(died))
+	r.Count("slow_calls_returned_on_solitary_retry", int64(slow))
+	r.Count("targets", int64(len(targets)))
+	for _, t := range targets {
+		s := p.stats[t.name]
+		if s == nil || s.QuickEvals < int64(quickN(t)) {
+			got := int64(0)
+			if s != nil {
+				got = s.QuickEvals
+			}
+			// inputs lost to a dead or stalled child are accounted for by its violation
+			if died == 0 && len(p.hung) == 0 {
+				r.Inconclusive("target %s ran %d of %d inputs", t.name, got, quickN(t))
+			}
+		}
+		if s != nil {
+			acc := int64(0)
+			for cls, n := range s.Classes {
+				if !strings.HasPrefix(cls, "rejected") {
+					acc += n
+				}
+			}
+			r.Count("inputs_not_rejected_outright", acc)
+		}
+	}
+	r.MinEvals = int64(len(targets)) * 15000
+	r.MinDistinct = len(targets) * 8000
+	r.Finish()
+}
+
+// replay re-runs the single input of a replay file.
+func (p *parent) replay(path string) {
+	b, err := os.ReadFile(path)
+	if err != nil {
+		p.r.Inconclusive("replay: %v", err)
+		return
+	}
+	var rp struct {
+		Case struct {
+			Target string `json:"target"`
+			Input  string `json:"input_base64"`
+		} `json:"case"`
+	}
+	if err := json.Unmarshal(b, &rp); err != nil || rp.Case.Target == "" {
+		p.r.Inconclusive("replay: no target/input in %s", path)
+		return
+	}
+	t := targetByName(rp.Case.Target)
+	in, err := base64.StdEncoding.DecodeString(rp.Case.Input)
+	if t == nil || err != nil {
+		p.r.Inconclusive("replay: bad target or input in %s", path)
+		return
+	}
+	f, err := os.CreateTemp(scratchDir(), "c14-replay-*")
+	if err != nil {
+		p.r.Inconclusive("replay: %v", err)
+		return
+	}
+	f.Write(in)
+	f.Close()
+	defer os.Remove(f.Name())
+	p.runRange(p.exe, t, job{Kind: "files", Files: []string{f.Name()}, From: 0, To: 1}, nil, true)
+	p.r.Distinct("replay")
+	p.r.Sample(map[string]any{"target": t.name, "input": "replay file " + path, "bytes_quoted": fmt.Sprintf("%.160q", in)})
+}
